@@ -114,6 +114,40 @@ proof fn id_sub_add_back_int(x: int, y: int) ensures (x + (-y)) + y == x {}
 proof fn id_pow_shift_int(m: int, c: int, p: int) by (nonlinear_arith)
     ensures (m * c) * p == m * (p * c), (m * p) * c == m * (p * c) {}
 
+/// 2x2 adjugate identities: [[a,b],[c,d]] [[d,-b],[-c,a]] = det I  (and the reverse product)
+#[verifier::external_body] pub proof fn id_adj(a: int, b: int, c: int, d: int)
+    ensures
+        radd(rmul(a, d), rmul(b, rneg(c))) == rsub(rmul(a, d), rmul(b, c)),
+        radd(rmul(a, rneg(b)), rmul(b, a)) == r0(),
+        radd(rmul(c, d), rmul(d, rneg(c))) == r0(),
+        radd(rmul(c, rneg(b)), rmul(d, a)) == rsub(rmul(a, d), rmul(b, c)),
+        radd(rmul(d, a), rmul(rneg(b), c)) == rsub(rmul(a, d), rmul(b, c)),
+        radd(rmul(d, b), rmul(rneg(b), d)) == r0(),
+        radd(rmul(rneg(c), a), rmul(a, c)) == r0(),
+        radd(rmul(rneg(c), b), rmul(a, d)) == rsub(rmul(a, d), rmul(b, c)) {}
+proof fn id_adj_int(a: int, b: int, c: int, d: int) by (nonlinear_arith)
+    ensures
+        a * d + b * (-c) == a * d + (-(b * c)),
+        a * (-b) + b * a == 0,
+        c * d + d * (-c) == 0,
+        c * (-b) + d * a == a * d + (-(b * c)),
+        d * a + (-b) * c == a * d + (-(b * c)),
+        d * b + (-b) * d == 0,
+        (-c) * a + a * c == 0,
+        (-c) * b + a * d == a * d + (-(b * c)) {}
+
+/// (s a + t b) d = s (a d) + t (b d)      and      p - t (-b) = p + t b
+#[verifier::external_body] pub proof fn id_det_expand(s: int, t: int, a: int, b: int, d: int)
+    ensures rmul(radd(rmul(s, a), rmul(t, b)), d) == radd(rmul(s, rmul(a, d)), rmul(t, rmul(b, d))),
+        rsub(rmul(s, a), rmul(t, rneg(b))) == radd(rmul(s, a), rmul(t, b)) {}
+proof fn id_det_expand_int(s: int, t: int, a: int, b: int, d: int) by (nonlinear_arith)
+    ensures (s * a + t * b) * d == s * (a * d) + t * (b * d), s * a + (-(t * (-b))) == s * a + t * b {}
+/// 1 (s a) - 1 (-(t b)) = s a + t b
+#[verifier::external_body] pub proof fn id_det_diag(s: int, t: int, a: int, b: int)
+    ensures rsub(rmul(r1(), rmul(s, a)), rmul(r1(), rneg(rmul(t, b)))) == radd(rmul(s, a), rmul(t, b)) {}
+proof fn id_det_diag_int(s: int, t: int, a: int, b: int) by (nonlinear_arith)
+    ensures 1 * (s * a) + (-(1 * (-(t * b)))) == s * a + t * b {}
+
 // ---- derived divisibility lemmas (proved from the above) ----
 pub proof fn lemma_dvd_refl(a: int) ensures dvd(a, a) { ax_mul_one(a); assert(a == rmul(r1(), a)); }
 pub proof fn lemma_dvd_zero(d: int) ensures dvd(d, r0()) { id_mul_zero(d); assert(r0() == rmul(r0(), d)); }
